@@ -160,11 +160,11 @@ def main():
                 ct = [z3.BitVec('f%d' % i, 8) for i in range(pl + ts)]
                 out = e.call_outcome('(*%s.sm4GcmAsm).Open' % SM4, [aead.v, dst, e.new_slice(list(range(12))), e.new_slice(ct), e.new_slice([9])])
                 if out.kind == 'panic':
-                    gbad.append('Open panics on a forged message: ' + out.panic.msg)
+                    gbad.append(('Open panics on a forged message: ' + out.panic.msg, pl + ts, ts))
                 elif out.values[1] is None or out.values[0].obj is not None:
-                    gbad.append('Open returns data or no error for a rejected message')
+                    gbad.append(('Open returns data or no error for a rejected message (plaintext length %d, tag %d)' % (pl, ts), pl + ts, ts))
                 elif e.heap[dobj.obj][0] != [0x55] * (pl + 8):
-                    gbad.append('Open writes into dst although the message is rejected')
+                    gbad.append(('Open writes into dst although the message is rejected', pl + ts, ts))
             out = e.call_outcome('(*%s.sm4GcmAsm).Open' % SM4, [aead.v, NILSLICE, e.new_slice([1] * 13), e.new_slice([1] * 40), NILSLICE])
             if out.kind != 'panic':
                 gbad.append('Open accepts a nonce of the wrong length')
@@ -172,7 +172,7 @@ def main():
     ck.absorb(eng)
     for g in sorted(set(gbad), key=str):
         if isinstance(g, tuple):
-            add('glue', g[0], dict(key=STD_KEY, nonce=list(range(12)), ct=[1] * g[1], aad=[], ts=g[2], forged=True))
+            add('glue', g[0], dict(key=STD_KEY, nonce=list(range(12)), ct=[1] * g[1], aad=[9], ts=g[2], forged=True))
         else:
             add('glue', g, dict(key=STD_KEY, nonce=list(range(12)), ct=[1] * 5, aad=[], ts=16, forged=True))
     secs = time.time() - t0
